@@ -170,8 +170,31 @@ func reporterGoroutinesAlive() bool {
 
 var m3Leaked bool
 
-// m3StepTrace, when set, receives the step-level trace of the handshake scenarios (validated against M3StepTrace.tla)
-var m3StepTrace *Trace
+// Step-level traces (validated against M3StepTrace.tla): one file per scenario, whose first line gives the model
+// constants of the scenario (thread sets, reports per producer, queue capacity).
+var m3StepOut string
+var m3StepSides = map[string]*Trace{}
+
+func m3StepTraceOf(sc *m3Scenario) *Trace {
+	if m3StepOut == "" {
+		return nil
+	}
+	tr := m3StepSides[sc.Name]
+	if tr == nil {
+		tr = NewTrace(filepath.Join(m3StepOut, "steps-"+sc.Name+".ndjson"))
+		m3StepSides[sc.Name] = tr
+		names := func(prefix string, n int) []string {
+			out := []string{}
+			for i := 1; i <= n; i++ {
+				out = append(out, fmt.Sprintf("%s%d", prefix, i))
+			}
+			return out
+		}
+		tr.Emit(M{"e": "cfg", "scenario": sc.Name, "producers": names("p", sc.Producers), "nrep": max1(sc.NRep), "flushers": names("f", sc.Flushers),
+			"closers": names("z", sc.Closers), "qcap": sc.QCap})
+	}
+	return tr
+}
 
 var m3Common = map[string]string{"service": "svc", "env": "test", "dc": "x1"}
 
@@ -254,7 +277,7 @@ func m3Execute(sc *m3Scenario, choose sched.Chooser) (ev []M, steps []sched.Step
 		return true
 	}
 	s.StepHook = func(st sched.Step) {
-		if m3StepTrace != nil && strings.HasPrefix(sc.Name, "hs-") {
+		if m3StepTrace := m3StepTraceOf(sc); m3StepTrace != nil {
 			// step-level trace: the step about to be taken and the projection of the reporter before it
 			ps := m3.VerifStateOf(rep)
 			m3StepTrace.Emit(M{"e": "step", "t": st.Thread, "p": st.Point, "pending": int(ps.Pending), "done": ps.Done, "qlen": ps.QueueLen})
@@ -468,7 +491,7 @@ type m3Stats struct {
 
 func m3Emit(tr *Trace, side *Trace, sc *m3Scenario, ev []M, steps []sched.Step, stuck string, st *m3Stats) {
 	execSeq++
-	if m3StepTrace != nil && strings.HasPrefix(sc.Name, "hs-") {
+	if m3StepTrace := m3StepTraceOf(sc); m3StepTrace != nil {
 		m3StepTrace.Emit(M{"e": "endx", "x": execSeq, "scenario": sc.Name})
 	}
 	tr.Emit(M{"e": "scn", "x": execSeq, "scenario": sc.Name, "producers": sc.Producers, "nrep": sc.NRep, "closers": sc.Closers, "flushers": sc.Flushers,
@@ -530,7 +553,7 @@ func m3DFS(sc *m3Scenario, tr, side *Trace, st *m3Stats, maxExecs int, descendin
 			}
 			return 0
 		}
-		if m3StepTrace != nil && strings.HasPrefix(sc.Name, "hs-") {
+		if m3StepTrace := m3StepTraceOf(sc); m3StepTrace != nil {
 			m3StepTrace.Emit(M{"e": "scn", "scenario": sc.Name})
 		}
 		ev, steps, stuck := m3Execute(sc, choose)
@@ -560,6 +583,9 @@ func m3Random(sc *m3Scenario, tr, side *Trace, st *m3Stats, n int, rng *rand.Ran
 				return cur
 			}
 			return rng.Intn(len(enabled))
+		}
+		if m3StepTrace := m3StepTraceOf(sc); m3StepTrace != nil {
+			m3StepTrace.Emit(M{"e": "scn", "scenario": sc.Name})
 		}
 		ev, steps, stuck := m3Execute(sc, choose)
 		m3Emit(tr, side, sc, ev, steps, stuck, st)
@@ -619,7 +645,7 @@ func init() {
 		rng := rand.New(rand.NewSource(cm.seed + int64(pi)*7919))
 		tr := NewTrace(filepath.Join(cm.out, "trace.ndjson"))
 		side := NewTrace(filepath.Join(cm.out, "scheds.ndjson"))
-		m3StepTrace = NewTrace(filepath.Join(cm.out, "steps.ndjson"))
+		m3StepOut = cm.out
 		tot := &m3Stats{distinct: map[string]bool{}}
 		var per []M
 		var samples []interface{}
@@ -653,8 +679,14 @@ func init() {
 		}
 		tr.Close()
 		side.Close()
-		m3StepTrace.Close()
-		writeMeta(cm.out, M{"step_events": m3StepTrace.N, "execs": tot.execs, "cases": tot.execs, "events": tr.N, "steps": tot.steps, "distinct": len(tot.distinct), "stuck": tot.stuck, "stuck_msg": tot.stuckMsg,
+		stepFiles, stepEvents := []string{}, 0
+		for name, t := range m3StepSides {
+			t.Close()
+			stepFiles = append(stepFiles, "steps-"+name+".ndjson")
+			stepEvents += t.N
+		}
+		sort.Strings(stepFiles)
+		writeMeta(cm.out, M{"step_files": stepFiles, "step_events": stepEvents, "execs": tot.execs, "cases": tot.execs, "events": tr.N, "steps": tot.steps, "distinct": len(tot.distinct), "stuck": tot.stuck, "stuck_msg": tot.stuckMsg,
 			"scenarios": per, "samples": samples, "evals": tot.execs, "wall_s": time.Since(t0).Seconds()})
 		fmt.Printf("m3sched: %d executions, %d events, %d steps in %.1fs\n", tot.execs, tr.N, tot.steps, time.Since(t0).Seconds())
 	})
